@@ -370,6 +370,11 @@ def check_flo(prog, H, p):
     # ctl has period 0, so the stamps at which controls were delivered complete the list of ticks
     stamps = sorted(set(res.stamps) | set(s for s, n, c, st in res.controls if c != "abort"))
     order = {"ctl": ["ctl", "tgt"], "tgt": ["tgt", "ctl"], "tgt-front": ["tgt", "ctl"], "tgt-back": ["ctl", "tgt"]}[first]
+    if not stamps or len(stamps) < min(H, j + 2):
+        p.violation("schedule-floscript|not-run-when-due", cs,
+                    "only %d ticks had any framer run (stamps %r); both framers are due from the start time on" % (len(stamps), stamps),
+                    dict(program=text, tick_period=float(T), controls=res.controls[:20]))
+        return
     ref, states = reference(order, {"ctl": 0.0, "tgt": float(p1 * T)},
                             (("ctl", j, "bid-period", "tgt", float(p2 * T)),), stamps)
     idx = {s: i for i, s in enumerate(stamps)}
